@@ -116,6 +116,10 @@ _WORDS = ["a", "Song", "x-y_z", "feat.", "(TV Size)", "v 1", "[4K]", "100%", "it
 _COLON = ["Re:Zero", "a:b", "12:34:56", "http://x.y/z?q=1", "::", "k: v", ":x", "x:"]
 _NONASCII = ["日本語", "é", "Пример", "한국어", "ñandú", "♪", "～ZERO～", "ＡＢ", "ß", "Ω", "ひらがな", "\U0001F3B5"]
 
+#: characters Python's str.splitlines() treats as line boundaries but the format does not (a line ends at LF / CRLF only):
+#: inside a value they are ordinary content
+_LINESEP_LIKE = ["Act I\u2028Act II", "Caf\u00e9\u0085Orchestra", "p\u2029q", "a\x0cb", "v\x0bw", "x\x1cy\x1dz\x1e!"]
+
 _any_char = st.characters(categories=["L", "N", "P", "S"], include_characters=" ", max_codepoint=0x2FFFF)
 _name_char = st.characters(
     categories=["L", "N", "P", "S"], include_characters=" ", exclude_characters=',:"', max_codepoint=0x2FFFF
@@ -132,7 +136,8 @@ def meta_text(max_size: int = 16):
     """Metadata value: no surrounding whitespace (the format trims it), may contain ':' and
     non-ASCII text, never a line break."""
     frag = st.one_of(
-        st.sampled_from(_WORDS), st.sampled_from(_COLON), st.sampled_from(_NONASCII), st.text(_any_char, max_size=max_size)
+        st.sampled_from(_WORDS), st.sampled_from(_COLON), st.sampled_from(_NONASCII), st.text(_any_char, max_size=max_size),
+        st.sampled_from(_LINESEP_LIKE),
     )
     return st.one_of(
         st.sampled_from(["", "Title", "a b"]),
@@ -148,7 +153,7 @@ def tag_text():
     other white space (ideographic space, no-break space, tab) *inside* it - typed through an input method."""
     return st.one_of(
         st.sampled_from(["tag", "4k", "Re:Zero", "日本語", "a:b:c", "é", "x_y", "♪"]),
-        st.sampled_from(["東方\u3000アレンジ", "ＢＭＳ\u00a0remix", "a\tb", "x\u2003y", "p\u2009q\u3000r"]),
+        st.sampled_from(["東方\u3000アレンジ", "ＢＭＳ\u00a0remix", "a\tb", "x\u2003y", "p\u2009q\u3000r", "l\u2028m", "n\u0085o\x0cp"]),
         st.text(_tag_char, min_size=1, max_size=8),
     )
 
@@ -912,6 +917,7 @@ def describe(chart: Dict) -> Dict[str, bool]:
         "keys!=4": chart["keys"] != 4,
         "meta-colon": any(":" in s for s in strs),
         "meta-nonascii": any(not s.isascii() for s in strs),
+        "value-with-splitlines-only-separator": any(len(s.splitlines()) > 1 and "\n" not in s and "\r" not in s for s in list(strs) + list(chart["meta"].get("tags", []))),
         "tag-with-inner-whitespace": any(any(ch.isspace() for ch in t) for t in chart["meta"].get("tags", [])),
         "tempo>=2": len(chart["bpms"]) >= 2,
         "sv": bool(chart["svs"]),
